@@ -469,6 +469,8 @@ class RangeFrame(Frame):
                 if _num(pv) and not isunk(pv):
                     pos_ = int(pv)
             self.ip.pending_lookup = (aq, pos_)
+            if getattr(self.ip, 'examined', None) is not None:
+                self.ip.examined.add(pos_)      # None = a position the interpreter could not make concrete
             if aq in self.ip.allin:
                 # the character is known to belong to the alphabet if its position is past the checked prefix
                 cn = f.nodes[f.strip_casts(args[1])]
@@ -519,7 +521,7 @@ FIELDS = {}       # decoder q -> {(alphabet q, first position, last position): (
 DOMAIN = {'lat': (-90.0, 90.0), 'lon': (-180.0, 180.0)}
 
 
-def rule_X10(ctx, targets, maxlen=26):
+def rule_X10(ctx, targets, maxlen=26, x12=None, truncate=None):
     """targets: qualified names of decoders with outputs named lat and lon and a string first parameter."""
     res = RuleResult('X10', 'decoder output range: for every string length and on every accepting path of the grid-code '
                             'decoders the decoded position lies in the domain of the encoders (-90 <= lat < 90, '
@@ -540,6 +542,8 @@ def rule_X10(ctx, targets, maxlen=26):
         nfn += 1
         accepted = 0
         lookups = 0
+        # documented truncation (Geohash: only the first maxlen_ characters are considered): constant read from the tree
+        truncate_at = K.i(truncate[q]) if (truncate and q in truncate) else None
         for ln in range(0, maxlen):
             ip = Interp(ctx.prog, max_runs=20000, max_depth=1, small=0)
             ip.frame_cls = RangeFrame
@@ -554,10 +558,11 @@ def rule_X10(ctx, targets, maxlen=26):
             ip.lookup_info = {}
             ip.fields = {}
             ip.pending_lookup = None
+            ip.examined = set()
 
             def end(outcome, ip=ip, per_path=per_path):
                 if outcome == 'ok':
-                    per_path.append((dict(ip.outs), ip.loop_unknown))
+                    per_path.append((dict(ip.outs), ip.loop_unknown, set(ip.examined), dict(ip.allin)))
                     for kf, vf in ip.fields.items():
                         cur_ = FIELDS.setdefault(q, {}).get(kf)
                         # the accepted set of a field is the union over the accepting paths
@@ -569,6 +574,7 @@ def rule_X10(ctx, targets, maxlen=26):
                 if depth == 0:
                     ip.outs = {}
                     ip.allin = {}
+                    ip.examined = set()
                     ip.loop_unknown = False
                     ip.fields = {}
                 try:
@@ -580,8 +586,26 @@ def rule_X10(ctx, targets, maxlen=26):
             lookups += ip.nlookups
             if 'budget' in outs:
                 raise AnalysisBroken('X10: exploration budget exceeded in %s (length %d)' % (q, ln))
-            for o, loopunk in per_path:
+            for o, loopunk, examined, allin in per_path:
                 accepted += 1
+                # X12: every character of an accepted code has been examined (looked up in an alphabet, or covered
+                # by a find_first_not_of(alphabet, pos) == npos test) - a character nothing looks at can be anything
+                isnan_path = any(isinstance(o.get(nm_), float) and math.isnan(o.get(nm_)) for nm_ in ('lat', 'lon'))
+                limit = ln if truncate_at is None else min(ln, truncate_at)
+                if not isnan_path and x12 is not None:
+                    if None in examined or loopunk:
+                        x12.note('undecided: %s length %d: a lookup position is not concrete' % (q, ln))
+                    else:
+                        frm = min(allin.values()) if allin else None
+                        miss = [c for c in range(limit) if c not in examined and not (frm is not None and c >= frm)]
+                        x12.ob(not miss, {'fn': q, 'length': ln, 'examined': sorted(examined), 'all_from': frm}
+                               if (miss or x12.obligations % 9 == 0) else None)
+                        if miss and not any(x.fn == q for x in x12.findings):
+                            x12.fail(q, 'char[%d] of %d' % (miss[0], ln), f.loc(),
+                                     'a string of length %d is accepted on a path that never examines its character(s) at '
+                                     'position(s) %s (looked up: %s%s): any character there is accepted'
+                                     % (ln, miss, sorted(examined),
+                                        '; all from %d on tested against an alphabet' % frm if frm is not None else ''))
                 for name in ('lat', 'lon'):
                     v = o.get(name, UNK)
                     lo_d, hi_d = DOMAIN[name]
